@@ -21,6 +21,10 @@ def make_base(seed):
     sc = scen.gen(seed, rev=False, layout="sparse", numrec=int(r.choice([1, 2, 3])), period=int(r.choice([1, 2, 3])),
                   nsteps=int(r.randint(5, 12)), kills=True, continuous=bool(r.rand() < 0.5), speed=float(r.choice([0.25, 1.0, 2.0])),
                   pvars=bool(r.rand() < 0.7))
+    if seed % 3 == 0:
+        # a reference time inside the run: particles released before it have negative time offsets in the files
+        sc["reference_s"] = scen.sim2time(sc, sc["nsteps"] // 2) + 7
+        sc["reference"] = lab.tstr(sc["reference_s"])
     if sc["continuous"]:
         # a file entry that is not a whole number of release periods after the first one: an uninterrupted run
         # never reaches it (ticks are counted from the first file time); a restarted run must not either
